@@ -31,6 +31,7 @@ fn main() {
         Some("replay") => supervisor::replay_main(&args[2..]),
         Some("one") => supervisor::one_main(&args[2..]),
         Some("seq") => supervisor::seq_main(&args[2..]),
+        Some("rss") => c15::rss_main(&args[2..]),
         Some("gen") => supervisor::gen_main(&args[2..]),
         _ => {
             eprintln!("usage: simctl check <PROP> [--tier quick|thorough] [--runs N] [--workers W]");
